@@ -9,17 +9,18 @@ typedef struct {
     double aspect;       /* 1 = round, 1/500 = needle */
     double needle_rot;   /* rotation of the squeezed axis */
     int nverts;          /* 3..64 */
-    int nholes;          /* 0..3 */
+    int nholes;          /* 0..3 (star loops); the axis-aligned shapes may carry up to 28 slit holes */
     int holes_cw;        /* orientation of hole loops */
     double hole_scale;   /* 1 = default size */
 } vf_poly_opts;
 
 typedef struct {
     GeoPolygon gp;            /* what the library gets (wrapped longitudes) */
-    GeoLoop holes[3];
-    int n, nholes, hn[3];
+#define VF_POLY_MAXH 32
+    GeoLoop holes[VF_POLY_MAXH];
+    int n, nholes, hn[VF_POLY_MAXH];
     LatLng *outer_u, *outer_w; /* unrolled / wrapped */
-    LatLng *hole_u[3], *hole_w[3];
+    LatLng *hole_u[VF_POLY_MAXH], *hole_w[VF_POLY_MAXH];
     int crosses_antimeridian;
     double bbox_u[4];          /* minlat maxlat minlng maxlng, unrolled */
 } vf_poly;
